@@ -99,9 +99,21 @@ func zzDefQuery(text string) (*query.Query, error) {
 
 // zzNewManager builds a Manager the way New() does, without watchers,
 // converters and stored state, and starts the real service loop.
+// zzRoot: where the service keeps its directories (default: the replay's
+// temporary directory); zzRealState: saveState is the real one in the engine
+// too (restart scenarios; the document goes through the typed json codec).
+var (
+	zzRoot      string
+	zzRealState bool
+)
+
 func zzNewManager(nStreams uint64) *Manager {
+	root := zzRoot
+	if root == "" {
+		root = zz.TempDir()
+	}
 	mgr := &Manager{
-		StateDir:            zz.TempDir(),
+		StateDir:            root,
 		usedIndexes:         make(map[*index.Reader]uint),
 		tags:                make(map[string]*tag),
 		converters:          make(map[string]*converters.CachedConverter),
@@ -129,7 +141,9 @@ func zzNewManager(nStreams uint64) *Manager {
 	}
 	if zz.Symbolic() {
 		zz.Override("github.com/spq/pkappa2/internal/query.Parse", zzDefQuery)
-		zz.Override(zzMgr+"saveState", func(m *Manager) error { return nil })
+		if !zzRealState {
+			zz.Override(zzMgr+"saveState", func(m *Manager) error { return nil })
+		}
 		if zz.Param("realjobs", 0) == 0 {
 			zz.Override(zzMgr+"startTaggingJobIfNeeded", func(m *Manager) {})
 			zz.Override(zzMgr+"startConverterJobIfNeeded", func(m *Manager) {})
